@@ -14,6 +14,7 @@ from .. import expr as E, model, pipeline, refsem, routinegen as G
 from ..real import BartiqCompilationError, BartiqPreprocessingError, evaluate, exc_class, schema, try_compile
 
 LEVEL = "proof"
+CASE_BUDGET_S = 0   # this module runs its own alarms (termination is what it examines)
 TIMEOUT_S = 60
 
 
